@@ -1,0 +1,46 @@
+//go:build verif
+
+package stage
+
+import (
+	"context"
+
+	"github.com/lindb/lindb/internal/concurrent"
+)
+
+// VerifStageSpec describes a stage whose scheduling behaviour (Execute inline or through the
+// worker pool, IsAsync, Stats, Type) is the real baseStage's, while the plan, the next stages,
+// the identifier and Complete are supplied by the verification harness (property C19).
+type VerifStageSpec struct {
+	Ctx        context.Context // with Pool: asynchronous stage (as shardScanStage etc. set baseStage.ctx/execPool)
+	Pool       concurrent.Pool // nil: synchronous stage
+	ID         string
+	PlanFn     func() PlanNode
+	NextFn     func() []Stage
+	CompleteFn func()
+}
+
+type verifStage struct {
+	baseStage
+	spec VerifStageSpec
+}
+
+// NewVerifStage builds a stage on the real baseStage from spec.
+func NewVerifStage(spec VerifStageSpec) Stage {
+	return &verifStage{
+		baseStage: baseStage{ctx: spec.Ctx, execPool: spec.Pool, stageType: Unknown},
+		spec:      spec,
+	}
+}
+
+func (s *verifStage) Plan() PlanNode { return s.spec.PlanFn() }
+
+func (s *verifStage) NextStages() []Stage { return s.spec.NextFn() }
+
+func (s *verifStage) Identifier() string { return s.spec.ID }
+
+func (s *verifStage) Complete() {
+	if s.spec.CompleteFn != nil {
+		s.spec.CompleteFn()
+	}
+}
